@@ -9,7 +9,7 @@ def spec(tier):
     obs = parts("T.stmt_seq", F, "stmt_seq", 16, T, path_timeout=200,
                 what="all documents of <=2 (quick) / <=3 (thorough) lines from a 100-entry statement table (every construct opener/closer, declarations, PROCEDURE/IMPORT/USE/CONTAINS/IMPLICIT/visibility outside scopes, bare END, ';' and '&' lines, doc comments, truncated statements) in free form, as a preprocessed file and in fixed form: parse + check_file never raise, bounded get_line calls")
     obs += parts("T.pp_seq", F, "pp_seq", 16, T, path_timeout=200,
-                 what="all preprocessed documents of <=3 lines from a 34-entry directive table incl. ill-formed directives, division/modulo by zero, huge shifts, backslash continuation at EOF, function-like macro named in #if; with and without initial definitions")
+                 what="all preprocessed documents of <=3 lines from a 44-entry directive table (function-like macro arguments holding backslashes, directives ending in C comments, &&) incl. ill-formed directives, division/modulo by zero, huge shifts, backslash continuation at EOF, function-like macro named in #if; with and without initial definitions")
     obs += parts("T.prefix", F, "prefix", 16, T, path_timeout=200,
                  what="every prefix (cut at every column of every line) of 5 valid sample programs (thorough: + test/test_source) indexed through the real server: no failure message, index queryable")
     obs += parts("T.mutate", F, "mutate", 16, T, path_timeout=200,
